@@ -679,7 +679,54 @@ def run(ctx):
                        ('every path of a verified %s record through the replay loop changes the state map or counts a failure' % vname) if okv else
                        ('a verified %s record can reach the next iteration without changing the state map and without being counted '
                         '(e.g. a record without a value): an acknowledged operation is silently dropped at restart' % vname), entry=b.root)
-    ctx.floor('REPLAY-TOTAL', 3)
+    # ... and nothing lets a verified record slip past the type match: from the true edge of the MAC check every path to the
+    # next iteration changes the state map, counts a failure, or goes through the arm of a record type no API writes
+    # (Checkpoint markers). A filter placed after verification ("already covered by the snapshot", "older than ..") drops
+    # acknowledged operations: ids are allocated before a record is logged, so a snapshot id says nothing about what it holds.
+    for b in bodies:
+        if not b.root.startswith(MGRT + '::replay_wal_file'):
+            continue
+        for n, e in sorted(b.edge_nodes().items()):
+            c = F.edge_cond(b, e)
+            if not (c.kind == 'bool' and c.truth and c.expr.k == 'call' and c.expr.a.endswith('::verify_wal_entry')):
+                continue
+            loops = [(h, ns) for h, ns in L.natural_loops(b) if e[0] in ns]
+            if not loops:
+                continue
+            h, ns = min(loops, key=lambda x: len(x[1]))
+            passn = set()
+            for cs in b.calls(r'HashMap::<.*>::(insert|remove)$|HashMap::(insert|remove)$|BTreeMap::<.*>::(insert|remove)$'):
+                passn.add(cs.bb)
+            for sbi, ssi, st in b.stmts():
+                if any(isinstance(p_, str) and p_.endswith('RecoveryStats::entries_failed') for p_ in st['d'][1:]):
+                    passn.add(sbi)
+            # arms of record types that no API writes
+            for sbi, t in b.terms():
+                if t['k'] != 'switch':
+                    continue
+                de = b.expr(t['d'])
+                while de.k == 'let':
+                    de = de.c
+                if de.k == 'disc' and de.a.strip().show().endswith('.transaction_type'):
+                    for n2, (src, val, dst) in b.edges_of(sbi):
+                        if val != 'otherwise' and int(val) < len(variants) and variants[int(val)] not in written:
+                            passn.add(n2)
+            reach = b.reachable_from([n], passn)
+            silent = h in reach
+            wit = None
+            if silent:
+                # the branch that lets the record through: the first switch edge on a skipping path that is not the type match
+                for n3, e3 in sorted(b.edge_nodes().items()):
+                    if n3 in reach and h in b.reachable_from([n3], passn):
+                        c3 = F.edge_cond(b, e3)
+                        if not (c3.kind == 'disc' and c3.expr.show().endswith('.transaction_type')):
+                            wit = (b.line_of_block(e3[0]), c3.brief(90))
+                            break
+            ctx.ob('REPLAY-TOTAL', 'replay-applies-every-verified-record', not silent, b.where(wit[0] if wit else b.line_of_block(e[0])),
+                   'from the true edge of the MAC check every path to the next record changes the state map or counts a failure' if not silent else
+                   ('a record that passed the MAC check can be skipped without effect and without being counted (branch `%s`): an acknowledged '
+                    'operation is dropped at restart' % (wit[1] if wit else '?')), entry=b.root)
+    ctx.floor('REPLAY-TOTAL', 4)
 
 
 def _runs_before_replay(prog, b):
